@@ -95,7 +95,12 @@ structure Acc where
   nonEmptyAnswers : Nat := 0
   mutations : Nat := 0
 
-def oracle (obs : List (List String × String)) : Verdict :=
+/-- answers the harness library gives when an operation ran out of time (machine load) or
+    the rest of a case was skipped after that: the case is judged up to there only. -/
+def harnessNoise (ans : String) : Bool := ans = "timeout" || ans = "skipped"
+
+def oracle (obs0 : List (List String × String)) : Verdict :=
+  let obs := obs0.takeWhile (fun x => !harnessNoise x.2)
   let parsed := obs.map fun (toks, ans) => (toks, parseOp toks, parseObs ans)
   if parsed.any (fun (_, p, o) => p.isNone || o.isNone) then Verdict.fail "bad-line" else
   let tr : List (List String × Op × Obs) := parsed.filterMap fun (t, p, o) =>
